@@ -48,6 +48,7 @@ Accepted subset (everything else raises Reject; see notes/GENCODE_REPORT.md):
       the specialised parameter is rejected.
 """
 import ast
+import pyimports
 import os
 import sys
 
@@ -181,6 +182,9 @@ class Unit:
         self.filename = filename
         with open(os.path.join(SRC, filename)) as fh:
             self.tree = ast.parse(fh.read())
+        for node in self.tree.body:
+            if isinstance(node, ast.FunctionDef):
+                pyimports.inline_test_only_locals(node)
         self.funcs = {}
         self.modules = set()
         self.globals = set()
